@@ -34,6 +34,15 @@ def make_monitor(ctx):
         want = 1 if bad else 0
         if c.obs.exit != want:
             return ("exit status %r, but %s" % (c.obs.exit, bad or "nothing went wrong"), "C02:verdict")
+        if c.obs.exit == 0 and c.groups is not None and not c.obs.timeout:
+            # a run that passes has run every selected layer somewhere: a layer none of whose tests started in any
+            # process is a layer whose subprocess was not started or whose report was lost
+            started = {e["t"] for e in c.obs.events if e.get("ev") == "tstart"}
+            for li, ts in c.groups:
+                if ts and not started & set(ts):
+                    return ("exit status 0, but layer %s (tests %r) ran in no process: its subprocess was not started "
+                            "or did not deliver a report" % (worlds.layer_name(c.world, li), sorted(ts)[:6]),
+                            "C02:layer-lost")
         return None
     return monitor
 
@@ -110,6 +119,28 @@ def gen_cases(ctx):
                 rng.choice(cand)["tearDownFaults"] = [[999999, 2]]
         cases.append(cw.Case(w, o))
     cases += death_cases(ctx, 16 if ctx.quick() else 300)
+    # tear-down faults of both kinds in one tear-down pass: a derived layer whose tearDown raises a real error, its
+    # base signals NotImplementedError, another layer follows; nothing else goes wrong
+    for i in range(6 if ctx.quick() else 80):
+        w = worlds.gen_world(rng, n_layers=rng.choice([3, 4]), tests_per_layer=(1, 2), kinds=["pass"], p_fault=0.0, p_write=0.0)
+        w.pop("sysPathObject", None)
+        nonunit = [k for k, l in enumerate(w["layers"]) if l["kind"] != "unit"]
+        if len(nonunit) < 3:
+            continue
+        for k in nonunit:
+            w["layers"][k].update(kind="instance", module="wlayers", setUp=True, tearDown=True, setUpRaises=[],
+                                  tearDownFaults=[], bases=[])
+            w["layers"][k].pop("falsy", None)
+        order = sorted(nonunit, key=lambda k: worlds.layer_name(w, k))
+        base, derived = sorted(order[:2])       # the base must be created first
+        w["layers"][derived]["bases"] = [base]
+        w["layers"][base]["tearDownFaults"] = [[999999, 2]]
+        w["layers"][derived]["tearDownFaults"] = [[0, 1]]
+        if i % 3 == 2:
+            # ... or the other way round: the error in the base, the derived layer cannot be torn down
+            w["layers"][base]["tearDownFaults"] = [[0, 1]]
+            w["layers"][derived]["tearDownFaults"] = [[999999, 2]]
+        cases.append(cw.Case(w, {"verbose": rng.choice([0, 1, 2]), "processes": 1}, "teardown-faults"))
     return cases
 
 
